@@ -36,6 +36,9 @@ func storeDoc(r *rand.Rand, id string) *sbom.Document {
 	d.Metadata.Version = fmt.Sprint(r.Intn(3))
 	o := listOpts{ids: idPool(3), rich: 0.3, types: edgeTypes2, maxNodes: 3}
 	d.NodeList = randList(r, o)
+	if id == "" && r.Intn(2) == 0 {
+		d.Metadata = nil // a document built from a node list only has no identifier either
+	}
 	return d
 }
 
